@@ -558,6 +558,11 @@ pub fn main(mode: Mode) -> i32 {
             ctx.run_enum(&iso, corpus_cases(widths));
             let n = ctx.n(8_000, 300_000);
             ctx.run_search(&iso, n, 200, 300);
+            if ctx.thorough() || std::env::var("VERIF_FUZZ").is_ok() {
+                let runs = ctx.n(100_000, 3_000_000) as u64;
+                let fp = Format;
+                crate::fuzzsup::run_campaign(&mut ctx, &fp, &crate::fuzzsup::Campaign { target: "fuzz_format", decode: crate::fuzzsup::decode_format, runs, max_len: 4096, seeds: crate::fuzzsup::repo_seeds(2500, 300, &[0]), timeout: std::time::Duration::from_secs(5000) });
+            }
             ctx.note_excluded("blank-line runs at positions other than after ';' or '}' (known finding not-idempotent:*)", EXCLUDED_BLANK_RUNS.load(std::sync::atomic::Ordering::Relaxed));
             ctx.note_excluded("comments (line and block) in the middle of a construct, i.e. not after ';' '{' '}' ',' (known findings comment-lost:*, not-idempotent:*)", EXCLUDED_LINE_COMMENTS.load(std::sync::atomic::Ordering::Relaxed));
             ctx.require_class("format/width-forced-breaks");
